@@ -37,6 +37,7 @@ def check(item):
                 if a != bb:
                     fails.append({"input": q, "tree": kind, "config": ci, "signature": "meaning",
                                   "bool_splices_nonprefix": R.bool_splices_nonprefix(t, cfg["default"], npaths),
+                                  "touches_leafless_nested_level": R.touches_leafless_level(t, cfgd["nested_fields"]),
                                   "observation": "tree %r denotes %s but the ES query %s matches %s on document root=%r nested=%r"
                                   % (t, a, json.dumps(js)[:300], bb, {k[1]: v for k, v in doc.root.items()},
                                      {p: [({k[1]: v for k, v in o.items()}, pi) for o, pi in objs] for p, objs in doc.objs.items()})})
@@ -49,6 +50,7 @@ def check(item):
             want = R.innermost_nested(f, npaths) if f else None
             if (enclosing[-1] if enclosing else None) != want:
                 fails.append({"input": q, "tree": kind, "config": ci, "signature": "nesting",
+                              "touches_leafless_nested_level": R.touches_leafless_level(t, cfgd["nested_fields"]),
                               "observation": "leaf on %r sits in nested %r, innermost nested path is %r: %s" % (f, enclosing, want, json.dumps(js)[:300])})
                 break
     return n, fails[:2]
